@@ -330,6 +330,11 @@ pub fn g_input(max_len: usize) -> BS<(Vec<u8>, &'static str)> {
                     }
                 }
             }
+            // a NUL byte somewhere inside: it is a byte like any other, not the end of anything
+            if (200..232).contains(&d) {
+                let at = (d as usize - 200) * (b.len() + 1) / 32;
+                b.insert(at.min(b.len()), 0);
+            }
             (b, l)
         })
         .boxed()
